@@ -25,6 +25,30 @@ CLAIMED = {
              "strictly sorted table.",
         technique="Coq proof (structural induction + vm_compute over generated table) + extracted-model correspondence",
         design="4 C17"),
+    "C13": dict(
+        text="Theorems over the Gallina transcription of Expr (folding constructors, eval, operators): no Panic on any row "
+             "that has the referenced columns, results stay in i32, build (constant folding) preserves eval on every row, "
+             "literal form = column form, and the documented operator table as 20 equations (wrap32 arithmetic, null cases, "
+             "0/1 comparisons by the Value order, short-circuit AND/OR) - all by structural induction, for all trees/rows. "
+             "Model tied to expr.rs by running both on every depth-1 tree over 18 operators x 12 literals (literal, column "
+             "and mixed forms), depth-2 and random deeper trees; an independent reference evaluator is the oracle.",
+        note="Trusted: Coq kernel, extraction, harness (Expr::eval reached through the make_row hook), the Python "
+             "reference evaluator used for the failing-input search.",
+        technique="Coq proof (structural induction over the AST) + extracted-model correspondence",
+        design="4 C13"),
+    "C19": dict(
+        text="Theorem: for EVERY expression tree e there is fuel f with parse f 0 (print 0 e) = Some (e, []) - the printer "
+             "(transcribed from format_with_precedence, precedences and spellings regenerated from expr.rs) followed by the "
+             "ladder parser written from msiquery.pest returns the same tree, hence the same value on every row; the "
+             "precedence-to-level map is a proof obligation over the generated table.  Text level: the implementation's "
+             "to_string() is lexed+parsed by the extracted ladder parser and compared with the built tree for every "
+             "(parent, child, side) operator pair, literal leaves and random trees; distinguishing rows are searched on "
+             "mismatch.  Partial: the query forms (SELECT/JOIN/INSERT/UPDATE/DELETE) and the lexer are covered by the "
+             "correspondence only.",
+        note="Trusted: Coq kernel, translate.py (precedence table, spellings), extraction, harness, the lexer in ExprText.v; "
+             "the ladder itself is the specification.",
+        technique="Coq proof (induction on the AST with a follow-set invariant, fuel monotonicity) + translator + correspondence",
+        design="4 C19"),
 }
 REASON_PENDING = "check not built yet in this round; see DESIGN.md section 4 for the plan"
 
